@@ -542,16 +542,46 @@ func schemaObjectRule(c *core.Ctx, rule string) {
 	okPayload := false
 	ast.Inspect(fd.Decl.Body, func(m ast.Node) bool {
 		as, ok := m.(*ast.AssignStmt)
-		if !ok || len(as.Lhs) != 1 || !core.IsFieldOfVar(info, as.Lhs[0], recv, "payload") {
+		if !ok || len(as.Lhs) == 0 || !core.IsFieldOfVar(info, as.Lhs[0], recv, "payload") || len(as.Rhs) == 0 {
 			return true
 		}
-		if call, ok := resolve(as.Rhs[0]).(*ast.CallExpr); ok && core.RecvExpr(call) != nil {
-			r := core.RecvExpr(call)
+		isStored := func(r ast.Expr) bool {
+			if r == nil {
+				return false
+			}
 			if core.IsFieldOfVar(info, r, recv, "Schema") {
-				okPayload = true
+				return true
 			}
 			if v := core.VarOf(info, r); v != nil && schemaVars[v] && len(ld.All(v)) == 1 {
-				okPayload = true // the very value stored in the Schema field
+				return true // the very value stored in the Schema field
+			}
+			return false
+		}
+		if call, ok := resolve(as.Rhs[0]).(*ast.CallExpr); ok {
+			if isStored(core.RecvExpr(call)) {
+				okPayload = true
+			}
+			// a constructor of the package that is handed the stored schema and asks it for the instance
+			if fn := core.Callee(info, call); fn != nil && fn.Pkg() == fd.Obj.Pkg() {
+				if cfd := p.DeclOf(fn); cfd != nil && cfd.Decl.Body != nil {
+					csig := fn.Type().(*types.Signature)
+					for i, a := range call.Args {
+						if !isStored(a) || i >= csig.Params().Len() {
+							continue
+						}
+						pv := csig.Params().At(i)
+						ast.Inspect(cfd.Decl.Body, func(k ast.Node) bool {
+							if c2, ok := k.(*ast.CallExpr); ok {
+								if re := core.RecvExpr(c2); re != nil && core.VarOf(cfd.Pkg.TypesInfo, re) == pv {
+									if f2 := core.Callee(cfd.Pkg.TypesInfo, c2); f2 != nil && f2.Name() == "Interface" {
+										okPayload = true
+									}
+								}
+							}
+							return true
+						})
+					}
+				}
 			}
 		}
 		return true
